@@ -480,6 +480,48 @@ func descendingIterSite(w *World, own *Fn, n ast.Node, depth int) bool {
 	return any && all
 }
 
+// R12.7: what a deferred call is told about the outcome is the outcome.
+func ruleR12_7(c *Check) {
+	w := c.W
+	r := c.Rule("R12.7", "E1", 20, "no deferred call takes, as an argument, a local variable that is assigned after the defer statement: arguments of a deferred call are evaluated when the defer statement runs, so `var err error; defer done(err); …; err = build()` reports nil whatever happens (the compaction's table builders reported their build error this way). A closure (`defer func() { done(err) }()`) reads the variable when it runs",
+		"a table that could not be written (disk full, name taken) was reported to the throttle as built: the compaction went on without it, committed the change set and deleted its inputs — every key of the missing table is lost, and nothing returns an error")
+	n := 0
+	var k keyer
+	for _, f := range w.Fns {
+		if isCmdPkg(f) || f.Body == nil {
+			continue
+		}
+		f := f
+		f.walk(func(x ast.Node) bool {
+			ds, ok := x.(*ast.DeferStmt)
+			if !ok {
+				return true
+			}
+			n++
+			bad := ""
+			for _, a := range ds.Call.Args {
+				id, isId := unparen(a).(*ast.Ident)
+				if !isId {
+					continue
+				}
+				v, isVar := w.Use(id).(*types.Var)
+				if !isVar || v.IsField() || v.Pkg() == nil || v.Parent() == v.Pkg().Scope() {
+					continue
+				}
+				for _, o := range f.Root().SitesDeep(selStoreVar(v)) {
+					// an assignment that can run after the defer statement in the same body
+					if w.fnOf(o.Node) == f && o.Node.Pos() > ds.End() {
+						bad = v.Name()
+					}
+				}
+			}
+			r.Check(bad == "", f, k.key("deferred call sees the final value of its arguments", w, ds), ds, "`"+short(w, ds.Call)+"` is deferred with the value `"+bad+"` has now; `"+bad+"` is assigned afterwards, and the deferred call never sees that")
+			return true
+		})
+	}
+	r.Exists(n >= 20, nil, "defer statements examined", nil, "too few defer statements found")
+}
+
 func ruleR12_4(c *Check) {
 	w := c.W
 	r := c.Rule("R12.4", "E1", 1, "runCompactDef installs the new tables in nextLevel (replaceTables) before removing the inputs from thisLevel (deleteTables)",
@@ -540,6 +582,7 @@ func propC12(c *Check) {
 	// the marker without the one holding the older version (same level is never scanned by the guard)
 	ruleR14_2(c)
 	ruleR01_5(c) // a read in progress keeps the tables it looks at alive across the compaction that replaces them
+	ruleR12_7(c) // a compaction that could not write one of its tables fails (deferred error reports see the error)
 }
 
 // ---- C13 ----
